@@ -719,5 +719,6 @@ func firstDiff(a, b obs.Observation) string {
 
 func main() {
 	vh.RegisterFunc("mworld", runWorld)
+	vh.RegisterFunc("sworld", runStatic)
 	vh.Main()
 }
